@@ -25,7 +25,7 @@ RULE = ('cases = (function form, nrows, set of failing rows, set of failing fiel
 ASSUMPTIONS = ['the private exception type identifies the converter failure', 'config default is read when the view is constructed (anchor mechanism)']
 EXC_NAMES_ = sorted(['InjectedFault'] + [b.__name__ for b in (KeyError, IndexError, ValueError, TypeError, AttributeError, ZeroDivisionError, RuntimeError, AssertionError, LookupError, ArithmeticError, UnicodeError, OSError, NotImplementedError, Exception)] + ['StopIteration'])
 FORMS = ['convert-callable', 'convert-multi', 'convert-method', 'fieldmap-dict', 'convert-passrow', 'convert-where', 'convertall', 'convertnumbers', 'fieldmap', 'rowmap', 'rowmapmany']
-REQUIRED = (['form:' + f for f in FORMS] + ['policy-passed-by-position', 'policy:False', 'policy:True', 'policy:inline', 'via:config', 'via:arg',
+REQUIRED = (['form:' + f for f in FORMS] + ['policy-passed-by-position', 'falsy-errorvalue', 'policy:False', 'policy:True', 'policy:inline', 'via:config', 'via:arg',
             'fail-first-row', 'fail-last-row', 'fail-consecutive', 'fail-all-rows', 'exception-surfaced-at-failing-row',
             'inline-exception-delivered', 'errorvalue-delivered', 'row-dropped', 'generator-rows-kept-before-failure', 'rowmap:lazy-mapper-result', 'rows-longer-than-the-header', 'len-of-the-view-taken', 'cells-holding-exception-objects'] +
             ['exc:' + e for e in EXC_NAMES_])
@@ -68,6 +68,8 @@ def cases(ctx):
                             for via in ('arg', 'config'):
                                 # errorvalue must be used under False and *ignored* under True / 'inline'
                                 evs = (None, 'ERR') if (form not in ('rowmap', 'rowmapmany') and (policy is False or n <= 3)) else (None,)
+                                if len(evs) == 2 and policy is False and failrows and n <= 3:
+                                    evs = evs + (0, '', False, ())       # an error value is a value like any other, falsy ones included
                                 for ev in evs:
                                     pres = (0, 1, 2) if form == 'rowmapmany' and failrows else (0,)
                                     if n > 4:
@@ -133,6 +135,8 @@ def judge(case, ctx):
     ctx.seen('via:' + via)
     if failrows and len(failrows) < n:
         ctx.mark_nontrivial()
+    if ev is not None and not ev:
+        ctx.seen('falsy-errorvalue')
     if 0 in failrows:
         ctx.seen('fail-first-row')
     if n and (n - 1) in failrows:
@@ -406,10 +410,15 @@ def judge(case, ctx):
             if not out:
                 ctx.seen('exception-surfaced-at-failing-row')
     # converter called once per converted cell, in order (only when nothing raised out)
-    if form in ('convert-callable', 'convert-multi', 'convert-passrow', 'convert-where') and exp_raise_after is None and not out:
+    if form in ('convert-callable', 'convert-multi', 'convert-passrow', 'convert-where', 'fieldmap') and exp_raise_after is None and not out:
         want = [(i, f) for i in range(n) if converted(i) for f in ('a', 'b')]
         if calls != want:
             out.append({'kind': 'converter-not-called-once-per-cell-in-order', 'expected': want, 'observed': calls})
+    # ... and a row mapper / row generator once per row: a failure is an event (a flaky lookup, the n-th call), it is not retried
+    if form in ('rowmap', 'rowmapmany') and exp_raise_after is None and not out:
+        want = [(i, 'row') for i in range(n)]
+        if calls != want:
+            out.append({'kind': 'mapper-not-called-once-per-row-in-order', 'expected': want, 'observed': calls})
     # len(view) is one more pass over the view, under the same policy: the number of rows the pass delivers, or the exception
     if not out and not stopiter:
         try:
